@@ -8,10 +8,14 @@
    through forward_message (so to everyone subscribed to FAILED_MESSAGE, by C01), and does nothing for
    FAILED_MESSAGE / RTMA_LOG* themselves (no cascade).  The other recipients of the snapshot are still
    visited: deliver_loop continues whatever one recipient's outcome was.
-   The end-to-end statement on frames is decided against the implementation by the correspondence and the
+   End to end for the not-writable case (C14_notice_delivered, every reachable state): the notice - header
+   FAILED_MESSAGE, payload naming the module and embedding the header as last stamped - is written as one whole
+   frame to exactly the FAILED_MESSAGE subscribers that pass the destination filter (all ready), nothing else
+   is written, the recipient's drop count goes up by one and the loop continues with the same header.
+   The failing-send case on frames is decided against the implementation by the correspondence and the
    spec oracle (check_C14). *)
 From Coq Require Import ZArith List Bool Lia.
-From Mgr Require Import Gen.MgrDefs Model.Manager Proofs.RegInv Proofs.RegTop Proofs.StepInv.
+From Mgr Require Import Gen.MgrDefs Model.Manager Proofs.RegInv Proofs.RegTop Proofs.StepInv Proofs.Exact Proofs.ExactTop.
 Import ListNotations.
 Open Scope Z_scope.
 
@@ -53,6 +57,16 @@ Proof. intros rec c hh H. unfold send_failed_with. rewrite H. reflexivity. Qed.
 Theorem C14_guarded_types : no_notice_types =
   [MT_FAILED_MESSAGE; MT_RTMA_LOG; MT_RTMA_LOG_CRITICAL; MT_RTMA_LOG_ERROR; MT_RTMA_LOG_WARNING; MT_RTMA_LOG_INFO; MT_RTMA_LOG_DEBUG].
 Proof. reflexivity. Qed.
+
+Theorem C14_notice_delivered : forall cfg fuel es u s (k : nat) p hh c,
+  run cfg fuel es = Ok u s ->
+  zmem (h_type hh) no_notice_types = false ->
+  m_reg (find_mod c (mods s)) = true -> zmem c (wl s) = false -> m_logger (find_mod c (mods s)) = false ->
+  (forall f, In f (snapshot s MT_FAILED_MESSAGE) -> zmem f (wl s) = true /\ flookup f (faults s) = None) ->
+  exists s', deliver_with cfg (forward cfg (Datatypes.S k)) p hh c s = Ok hh s' /\
+    out s' = out s ++ frames fail_hdr (PFailed (m_mod_id (find_mod c (mods s))) hh) s (snapshot s MT_FAILED_MESSAGE) /\
+    m_drops (find_mod c (mods s')) = m_drops (find_mod c (mods s)) + 1.
+Proof. exact notice_exact_reachable. Qed.
 
 (* the rest of the snapshot is visited whatever happened to one recipient *)
 Theorem C14_others_still_served : forall cfg rec p hh c r,
